@@ -18,8 +18,11 @@ entity Group in [Group];
 entity User in [Group] = { level: Long, active: Bool, manager?: User, friends: Set<User>, home?: Folder };
 entity Folder in [Folder] = { admin?: User, depth: Long };
 entity Doc in [Folder] = { owner: User, readers: Set<User>, parent?: Doc, public: Bool, team?: Group } tags String;
-action view, edit appliesTo { principal: [User], resource: [Doc], context: { via?: User, n: Long, docs?: Set<Doc> } };
-action browse appliesTo { principal: [User], resource: [Folder], context: { via?: User, n: Long, docs?: Set<Doc> } };
+action anyop;
+action readonly in [anyop];
+action view in [readonly] appliesTo { principal: [User], resource: [Doc], context: { via?: User, n: Long, docs?: Set<Doc> } };
+action edit in [anyop] appliesTo { principal: [User], resource: [Doc], context: { via?: User, n: Long, docs?: Set<Doc> } };
+action browse in [readonly] appliesTo { principal: [User], resource: [Folder], context: { via?: User, n: Long, docs?: Set<Doc> } };
 "#;
 
 /// Policy shapes. `{U}`, `{G}`, `{D}`, `{F}` are replaced by literal ids drawn per policy.
@@ -68,6 +71,10 @@ pub const SHAPES: &[&str] = &[
     r#"forbid(principal, action in [Action::"view", Action::"edit"], resource) when { resource has parent && resource.parent has parent && resource.parent.parent has parent };"#,
     r#"permit(principal, action, resource) when { context has via && context.via has home && context.via.home has admin };"#,
     r#"permit(principal, action, resource) when { Doc::"{D}".hasTag("k") || Folder::"{F}" has admin };"#,
+    // action groups
+    r#"permit(principal, action in Action::"readonly", resource) when { principal.level > 1 };"#,
+    r#"forbid(principal, action in [Action::"anyop"], resource) when { principal has manager && principal.manager.level > 4 };"#,
+    r#"permit(principal, action in [Action::"readonly", Action::"edit"], resource) when { action in Action::"anyop" && context.n >= 0 };"#,
     // membership in a group that is itself reached through an attribute (resolved in a later round)
     r#"permit(principal, action in [Action::"view", Action::"edit"], resource) when { resource has team && principal in resource.team };"#,
     r#"forbid(principal, action in [Action::"view", Action::"edit"], resource) when { resource has team && resource.owner in resource.team };"#,
@@ -642,7 +649,7 @@ fn gen_case(seed: u64) -> Case {
             }
         }
     }
-    const MEMBERSHIP_SHAPES: [usize; 6] = [5, 24, 27, 44, 45, 46];
+    const MEMBERSHIP_SHAPES: [usize; 6] = [5, 24, 27, 47, 48, 49];
     let np = rng.range(1, 6);
     let mut policies = vec![];
     for _ in 0..np {
@@ -808,7 +815,7 @@ impl World for Batched {
         out
     }
     fn rule(&self) -> &'static str {
-        "cases = seeded scenarios (1-6 policies instantiated from 57 shapes and accepted by the real strict validator; stores of <=14 entities accepted by schema-based from_json; requests accepted by Request::new with schema; referenced-but-absent entities frequent) x a seeded delivery-fault plan for the simulated entity-store service x every budget 0..=n+1; evaluations = individual is_authorized_batched calls compared with Authorizer::is_authorized over the same store; non-trivial = scenario that needs >=2 loader rounds at full budget; distinct by hash of (policies, store, request, loader seed)"
+        "cases = seeded scenarios (1-6 policies instantiated from 60 shapes and accepted by the real strict validator; stores of <=14 entities accepted by schema-based from_json; requests accepted by Request::new with schema; referenced-but-absent entities frequent) x a seeded delivery-fault plan for the simulated entity-store service x every budget 0..=n+1; evaluations = individual is_authorized_batched calls compared with Authorizer::is_authorized over the same store; non-trivial = scenario that needs >=2 loader rounds at full budget; distinct by hash of (policies, store, request, loader seed)"
     }
     fn real_components(&self) -> Vec<&'static str> {
         vec!["PolicySet::is_authorized_batched (batched_evaluator loop, TPE evaluator, residuals, tpe::Response)", "Authorizer::is_authorized (reference)", "Validator (strict) / Entities::from_json_value(schema) / Request::new(schema) as precondition checks"]
